@@ -20,7 +20,10 @@ THEOREMS = ['Tbox.C01.C01_exactly_once', 'Tbox.C01.C01_executed_at_most_once', '
             'Tbox.C01.C01_poll_error_epoll_continues', 'Tbox.C01.C01_exit_timer_not_early', 'Tbox.C01.C01_exit_timer_deadline',
             'Tbox.C01.C01_exit_timer_fires', 'Tbox.C01.C01_poll_timeout_width', 'Tbox.C01.C01_poll_timeout_unclamped_counterexample',
             'Tbox.C01.C01_cleanup_returns_idle', 'Tbox.C01.C01_cleanup_unlocked_counterexample', 'Tbox.C01.C01_nested_run_refused', 'Tbox.C01.C01_destructor_two_drains', 'Tbox.C01.C01_destructor_drops_timer_release_counterexample',
-            'Tbox.C01.C01_waterline_independent', 'Tbox.C01.C01_waterline_independent_exec']
+            'Tbox.C01.C01_waterline_independent', 'Tbox.C01.C01_waterline_independent_exec',
+            'Tbox.C01.C01_cancel_after_exec_false', 'Tbox.C01.C01_cancel_self_while_running', 'Tbox.C01.C01_cancel_self_in_drain',
+            'Tbox.C01.C01_cancel_next_id', 'Tbox.C01.C01_isRunning', 'Tbox.C01.C01_isInLoopThread', 'Tbox.C01.C01_run_uses_queries',
+            'Tbox.C01.exec_executed_mono']
 SOURCES = vlib.EVENT_SOURCES + vlib.BASE_SOURCES
 FLAVOUR = 'asan'
 LIBS = ['-ldl']
@@ -48,15 +51,17 @@ ASSUMPTIONS = ['RunId does not wrap around (< 2^63 submissions per entry point):
                'exit-timer waits are below 2^62 ms and the steady clock does not wrap (uint64 ms)',
                'runNext/cancel are called from the loop thread (or the owning thread while the loop is not running), as loop.h demands',
                'exitLoop()/exitLoop(wait) likewise: loop.h does not say so, but the code writes keep_running_ and the timer heap without lock_ and '
-               'does not wake the poll, so a foreign thread has to go through runInLoop([]{exitLoop();}) (which the stress mode does); '
-               'a direct cross-thread exitLoop() is outside the model',
+               'does not wake the poll (keep_running_ is a plain bool, the timer heap is loop-thread-only), so a foreign thread has to go through '
+               'runInLoop([]{exitLoop();}) (modelled; the stress mode does it); a direct cross-thread exitLoop() is outside the model AND outside '
+               'the statement (not a submission entry point; whenever the loop does stop the drain theorems hold): see the round-8 (3) section of Props.lean',
                'runLoop() from inside a callable/callback of the RUNNING loop is refused (patches/C01-04) and modelled; runLoop() from a callable of a '
                'destructor or cleanup() drain (loop not running) is outside the model',
                'Loop::cleanup() takes lock_ (patches/C01-03)',
                'exceptions of callables are caught by the loop (patches/C01-02); exceptions of timer/fd callbacks are not part of this property',
                'no other thread uses the loop object while it is being destroyed',
                'fair scheduling: a runnable loop thread eventually runs (needed to read the wake-up invariant as liveness)']
-RULE = ('(i) sequentialised schedules: scripts of callables (submit in-loop/next/run(), cancel, exit, exit timer with waits around 2^31/2^32 ms, '
+RULE = ('(i) sequentialised schedules: scripts of callables (submit in-loop/next/run(), cancel - incl. of the callable\'s own id at every position of '
+        'both batches and of the drains, and of the id issued next -, isRunning()/isInLoopThread() queries from callables and from foreign threads, exit, exit timer with waits around 2^31/2^32 ms, '
         'nested runLoop(), cross-thread submission in the middle of a batch, empty std::function) x '
         'op sequences (submit/run() from 4 threads, run once/forever, single passes, stop, re-run, cleanup(), destroy, virtual clock ticks, water line, '
         'kernel fault schedules: poll EINTR / hard error / spurious readiness, eventfd read / write / creation failure) on the real epoll/select loop, '
@@ -76,6 +81,7 @@ def body(rng, ntmpl, k, allow_cross=True):
         elif r < 0.72: acts.append('c%d' % rng.choice([2, 4, 6, 8, 10, 12, 3, 5, 7, 9, 11, 0, 1, 14, 16, 13]))
         elif r < 0.78: acts.append('x')
         elif r < 0.82: acts.append('t' + rng.choice(['', '1', '7', '2147483647', '2147483648', '2147483649', '4294967296', '4294967297']))
+        elif r < 0.835: acts.append('q')
         elif r < 0.85: acts.append('!')
         elif r < 0.87: acts.append('R')
         elif r < 0.90 and hi is not None: acts.append('r%d' % hi)
@@ -134,7 +140,7 @@ def gen_case(rng, nops):
             elif r < 0.47: ops.append('cancel %d %d' % (rng.randrange(4), rng.choice([0, 2, 3, 4, 5, 6, 7, 8])))
             elif r < 0.49: ops.append('exit %d' % rng.randrange(4))
             elif r < 0.52: ops.append('exitt %d %d' % (rng.randrange(4), rng.choice(WAITS)))
-            elif r < 0.53: ops.append('tick')
+            elif r < 0.53: ops.append(rng.choice(['tick', 'query %d' % rng.randrange(4)]))
             elif r < 0.57: ops.append('srun %d %d' % (rng.randrange(4), k)); budget -= size[k]
             elif r < 0.61: ops.append('cleanup %d' % rng.randrange(4))
             elif r < 0.90:
@@ -148,7 +154,8 @@ def gen_case(rng, nops):
             elif r < 0.40:
                 t = rng.choice([x for x in range(4) if x != lt]); ops.append('srun %d %d' % (t, k)); budget -= size[k]
             elif r < 0.80: ops.append('pass')
-            elif r < 0.86: ops.append('tick')
+            elif r < 0.84: ops.append('tick')
+            elif r < 0.86: ops.append('query %d' % rng.randrange(4))       # the loop thread itself is busy: bad-op on both sides
             elif r < 0.95: ops.append('stop'); running = False
             else: ops.append(rng.choice(['next 0 0', 'run forever 1', 'sub %d 0' % lt, 'destroy 0', 'cleanup 0', 'srun %d 0' % lt]))   # invalid while running
         if ops[-1] == 'pass' and running and rng.random() < 0.15:
@@ -219,9 +226,65 @@ DIRECTED = [
 ]
 
 
+def self_cancel_family():
+    """lesson (g) / seeded C01-8: a task cancels ITS OWN id while it runs - at every position of a batch of 1..3 (incl. the last),
+    for the runInLoop batch (even ids) and the runNext batch (odd ids), in a pass, in the loop-exit drain, in a destructor and a
+    cleanup() drain, on both engines; variants: twice, then the follower (a real hit), then the id that will be issued next."""
+    out = []
+    for e, eng in enumerate(['epoll', 'select']):
+        for entry in ('sub', 'next'):
+            for n in (1, 2, 3):
+                ids = [2 * (j + 1) + (1 if entry == 'next' else 0) for j in range(n)]
+                for p in range(n):
+                    for variant in range(3):
+                        me = 'c%d' % ids[p]
+                        if variant == 0: b = me
+                        elif variant == 1: b = me + ',q,' + me + (',c%d' % ids[p + 1] if p + 1 < n else '') + ',' + me
+                        else:    # the ids both allocators will hand out next first, then self, then the two submissions
+                            nx_even, nx_odd = (2 * n + 2, 3) if entry == 'sub' else (2, 2 * n + 3)
+                            b = 'c%d,c%d,' % (nx_even, nx_odd) + me + ',i%d,n%d' % (n, n)
+                        progs = ['prog %d %s' % (j, b if j == p else 'q') for j in range(n)] + ['prog %d -' % n]
+                        subs = ['%s %d %d' % (entry, 1 if entry == 'sub' else 0, j) for j in range(n)]
+                        head = ['engine ' + eng] + progs
+                        out.append(head + subs + ['run forever 0', 'pass', 'pass', 'stop'])
+                        if variant == 0 and (n + p + e) % 2 == 0:
+                            out.append(head + subs + ['destroy %d' % (p % 4)])
+                            out.append(head + subs + ['cleanup %d' % (p % 4), 'query 0'])
+        # loop-exit drain: task 0 (id 2) submits the batch and exits; ids 4,6,8 (runInLoop) / 3,5,7 (runNext) run in runThisAfterLoop
+        for kind, base in (('i', 4), ('n', 3)):
+            for p in range(3):
+                progs = ['prog 0 %s,x' % ','.join('%s%d' % (kind, j + 1) for j in range(3))] + \
+                        ['prog %d %s' % (j + 1, ('c%d,q' % (base + 2 * j)) if j == p else '-') for j in range(3)]
+                out.append(['engine ' + eng] + progs + ['sub 1 0', 'run forever 0', 'pass'])
+    return out
+
+
+DIRECTED8 = [
+    # cancel of the id that will be issued next (both allocators), from a callable and while idle: false, and the submission that
+    # follows runs; cancel of the last id handed out after it ran, twice in a row, of the id behind the last one (state-derived inputs)
+    ['prog 0 q', 'prog 1 c4,i0,c3,n0,c6,c5', 'sub 1 1', 'run forever 0', 'pass', 'pass', 'stop'],
+    ['engine select', 'prog 0 -', 'cancel 0 2', 'cancel 0 3', 'sub 1 0', 'next 0 0', 'cancel 1 4', 'cancel 1 5', 'run once 0', 'pass',
+     'cancel 0 2', 'cancel 0 3', 'sub 1 0', 'cancel 0 4', 'cancel 0 4', 'cancel 0 6', 'sub 1 0', 'cancel 2 8', 'run once 1', 'pass', 'cancel 1 6'],
+    # isRunning()/isInLoopThread(): before the first run, while the loop thread is parked (asked by foreign threads), inside callables
+    # of a pass, of the loop-exit drain, of a destructor and a cleanup() drain, between runs, after a re-run by another thread
+    ['prog 0 q', 'prog 1 q,i0,n0,x', 'query 0', 'query 1', 'sub 1 0', 'next 0 0', 'run forever 0', 'query 1', 'query 2', 'query 0', 'pass', 'query 3',
+     'sub 2 1', 'pass', 'query 0', 'query 1', 'sub 1 0', 'run forever 2', 'query 0', 'query 2', 'query 3', 'pass', 'stop', 'query 2', 'sub 3 0', 'destroy 2'],
+    ['engine select', 'prog 0 q', 'prog 1 q,r0,x', 'query 3', 'sub 1 0', 'cleanup 3', 'query 3', 'srun 1 1', 'run once 1', 'query 0', 'pass', 'query 1',
+     'next 2 0', 'destroy 2', 'query 2'],
+    # eventfd() failed: the loop still counts as running (the read event exists), the loop thread is known
+    ['prog 0 q', 'fault efd', 'sub 1 0', 'run forever 0', 'query 1', 'pass', 'stop', 'query 0'],
+    # Loop::New with an unknown engine name returns nullptr (observed), the known names give a loop
+    ['newloop kqueue', 'newloop EPOLL', 'newloop epoll', 'newloop select', 'newloop selectx', 'newloop -', 'newloop', 'newloop a b', 'query 9', 'query'],
+]
+
+
 def gen(rng, tier):
     n = 600 if tier == 'quick' else 15000
     for ops in DIRECTED:
+        yield ops
+    for ops in DIRECTED8:
+        yield ops
+    for ops in self_cancel_family():
         yield ops
     if tier == 'thorough':
         # exhaustive small scope: every op sequence of length <= 4 over this alphabet (exit inside a task, nested submissions,
@@ -245,7 +308,7 @@ def gen(rng, tier):
 
 def nontrivial(ops, model_lines):
     tags = ' '.join(l for l in model_lines if l.startswith('B '))
-    keys = ('poll-eintr', 'poll-error', 'poll-spurious', 'select-break', 'read-fault', 'fault-write', 'eventfd-create-failed', 'cleanup', 'nested-runLoop',
+    keys = ('cancel-self', 'cancel-next-id', 'query-', 'new-unknown-engine', 'poll-eintr', 'poll-error', 'poll-spurious', 'select-break', 'read-fault', 'fault-write', 'eventfd-create-failed', 'cleanup', 'nested-runLoop',
             'run-cross', 'run-idle', 'run-in-task', 'wait>=2^31', 'throw', 'exit-timer-fired', 'exit-timer-dropped', 'rerun', 'submit-while-exiting', 'submit-between-runs', 'submit-blocked-by-drain', 'cancel-batch-hit', 'cancel-queue-hit',
             'cancel-idle-hit', 'exec-in-exit-drain', 'exec-in-destructor', 'cross-mid-batch', 'stress', 'start-with-queued-work')
     return 1 if any(k in tags for k in keys) else None
@@ -330,4 +393,4 @@ LEVEL_NOTE = ('partial for "free of data races": the Lean model cannot exhibit a
               'running & queue non-empty -> eventfd readable; liveness needs kernel readiness + fair scheduling (assumed). '
               'trusted: Lean kernel, hand-written model + trace-acceptor tie (coverage bounded by the generator, measured)')
 TECHNIQUE = 'Lean 4 invariant proof over all interleavings of a loop-queue model + trace-acceptor correspondence (sequentialised and free-running) with the real loop'
-DESIGN_REF = 'DESIGN.md §6 C01, §7 row 1, §10 addenda (round 7)'
+DESIGN_REF = 'DESIGN.md §6 C01, §7 row 1, §10 addenda (rounds 7, 8)'
